@@ -15,14 +15,14 @@ STATEMENT: {p['statement']}
 QUANTIFIED OVER: {p['quantifier']['text']}
 CODE ANCHORS (files): {', '.join(p['anchors']['files'])}
 
-YOUR TASK: produce TWO independent, realistic source changes ("seeded defects") to the library code in the worktree (not to its tests), each of which
+YOUR TASK: produce THREE independent, realistic source changes ("seeded defects") to the library code in the worktree (not to its tests), each of which
   (a) still compiles,
   (b) still passes the complete existing Go test suite (cd {wt}/pkg/go && go test -vet=off -count=1 ./...), unedited,
   (c) breaks the property above for some inputs, and
   (d) is SUBTLE: it needs something specific to manifest — an unusual input shape, a multi-step sequence of calls, a particular ordering/interleaving, a particular nesting depth or position, or two cooperating code sites that each look fine alone. Do NOT produce a change that ordinary use or nearly every input would expose at once. Think of the kind of bug a tired maintainer could plausibly introduce in a refactor or "optimisation" and that code review could miss.
-The two changes must be different in kind (different code site or mechanism) and each must apply on its own to the pristine worktree.
+The three changes must be different in kind (different code site or mechanism) and each must apply on its own to the pristine worktree.
 
-For EACH change i in {{1,2}} deliver, in the directory {wt}/seeded/m<i>/ :
+For EACH change i in {{1,2,3}} deliver, in the directory {wt}/seeded/m<i>/ :
   - patch.diff : output of `git diff` for the library change only (relative to the pristine HEAD, applicable with `git apply` from the repository root),
   - demo_test.go : a self-contained Go test file (state at its top, in a comment, which package directory under pkg/go it must be copied into, e.g. pkg/go/transformer) that FAILS with the change applied and PASSES on the pristine tree; it demonstrates the property violation on a concrete input/sequence,
   - meta.json : {{"property": "{pid}", "summary": "...what was changed...", "needs_to_manifest": "...what specific input/sequence/order is required...", "demo_package": "pkg/go/<dir>", "demo_run": "go test -run <TestName> ./<dir>/", "verified": "what you ran and observed"}}.
@@ -31,4 +31,4 @@ Verify everything yourself: run the full existing suite with each change applied
 
 Environment: no network. Prefix every go command with: GOFLAGS=-mod=mod GOPROXY=off GOSUMDB=off GOTOOLCHAIN=local  (go 1.23.5). If `go` with -mod=mod modifies go.sum or go.mod, revert that (git checkout -- pkg/go/go.mod pkg/go/go.sum). Do not install anything. Keep all scratch files inside {wt}.
 
-Finish by replying with a short summary of the two changes (files, what they break, what they need to manifest) and confirmation of the verification you ran.""")
+Finish by replying with a short summary of the three changes (files, what they break, what they need to manifest) and confirmation of the verification you ran.""")
